@@ -165,6 +165,13 @@ theorem server_never_asserts (d : Dialect) (env : Env) (db : Db) (hk : KeysX db)
   rw [heq] at this
   cases this
 
+/-- **the server never stops.** Along every such run the kernel never halts: not on an assertion, and not by a
+    coroutine running away (every coroutine reaches its next blocking submission, a response or a restart within a
+    bounded number of steps: Proofs/Productive.lean, so the model's per-tick fuel is never exhausted). -/
+theorem server_never_halts (d : Dialect) (env : Env) (db : Db) (hk : KeysX db) (clk : Time) (cs : List Choice)
+    (hok : RunOkV clk (Sys.boot env d (defs d) db) cs) : ((Sys.boot env d (defs d) db).run cs).halted = none :=
+  run_never_halts d cs _ clk (bgOk d env) (kinv_boot d env db clk hk) (runOkV_runOk d cs clk _ hok)
+
 /-- … and the key invariants the assertions rely on hold in every state such a run reaches: promise, schedule, lock and
     task ids are unique, promise states legal, every invocation task has its promise. -/
 theorem reachable_keys (d : Dialect) (env : Env) (db : Db) (hk : KeysX db) (clk : Time) (cs : List Choice)
